@@ -187,9 +187,11 @@ class StandardFuncs(SnowfakeryPlugin):
             if end_date < start_date:
                 raise DataGenError("End date is before start date")
 
-            return self._faker_for_dates.date_time_between(
+            rc = self._faker_for_dates.date_time_between(
                 start_date, end_date, tzinfo=timezone
             )
+            # Faker computes with whole seconds: keep the result inside the bounds
+            return min(max(rc, start_date), end_date)
 
         def i18n_fake(self, locale: str, fake: str):
             # deprecated by still here for backwards compatibility
